@@ -78,218 +78,234 @@ func presenceTable(c *core.Ctx, p *procInfo, lit *ssa.Function) (rs rows, runs i
 		{"a.b:-1", "a.b", "-1"}, {"a.b:--v", "a.b", "--v"}, {"a.b:=x", "a.b", "=x"}, {"a.b:?e", "a.b", "?e"}, {"a.b:+y", "a.b", "+y"}}
 	for _, v := range vals {
 		for _, e := range exps {
-			var asked, recorded []string
-			var parseErr, fmtErr bool
-			var used absint.Value
-			build := func() (absint.Oracle, []absint.Value, []absint.Value) {
-				asked, recorded, parseErr, fmtErr, used = nil, nil, false, false, nil
-				t := newTbl(c)
-				pr := absint.NewTok("prop", "property")
-				pr.Fields["Configurations"] = &absint.MapVal{M: map[string]absint.Value{}}
-				proc := absint.NewTok("proc", "processor")
-				t.ext["strings.SplitN"] = func(ip *absint.Interp, a []absint.Value) absint.Value {
-					s, ok1 := a[0].(absint.Str)
-					sep, ok2 := a[1].(absint.Str)
-					n, ok3 := a[2].(absint.Int)
-					if !ok1 || !ok2 || !ok3 {
-						panic(&absint.Undecided{Msg: "SplitN on non-literal arguments"})
-					}
-					l := &absint.List{}
-					for _, part := range strings.SplitN(string(s), string(sep), int(n)) {
-						l.Elems = append(l.Elems, absint.Str(part))
-					}
-					return l
+			for _, history := range []bool{false, true} {
+				// history: the same processor has resolved the same key without a default before (what a placeholder
+				// resolves to depends on the configuration and its own text, not on what was asked earlier)
+				if history && (!v.absent || e.def == "" || e.text != "a.b:dflt") {
+					continue
 				}
-				t.ext["strings.Cut"] = func(ip *absint.Interp, a []absint.Value) absint.Value {
-					s, _ := a[0].(absint.Str)
-					sep, _ := a[1].(absint.Str)
-					b, af, f := strings.Cut(string(s), string(sep))
-					return absint.Tuple{absint.Str(b), absint.Str(af), absint.Bool(f)}
-				}
-				t.invoke[ro.BinderGet] = func(ip *absint.Interp, a []absint.Value) absint.Value {
-					asked = append(asked, absint.Show(a[1]))
-					return v.val()
-				}
-				t.typeTest = func(x absint.Value, T types.Type) (bool, bool) {
-					switch x.(type) {
-					case *absint.MapVal:
-						return types.Identical(T, mapAny), true
-					case *absint.List:
-						return types.Identical(T, sliceAny), true
-					case *absint.Tok:
-						if tk := x.(*absint.Tok); tk.Attr["basic"] != nil {
-							b, isB := T.Underlying().(*types.Basic)
-							return isB && !types.IsInterface(T) && b.Name() == string(tk.Attr["basic"].(absint.Str)), true
+				var asked, recorded []string
+				var parseErr, fmtErr bool
+				var used absint.Value
+				build := func() (absint.Oracle, []absint.Value, []absint.Value) {
+					asked, recorded, parseErr, fmtErr, used = nil, nil, false, false, nil
+					t := newTbl(c)
+					pr := absint.NewTok("prop", "property")
+					pr.Fields["Configurations"] = &absint.MapVal{M: map[string]absint.Value{}}
+					proc := absint.NewTok("proc", "processor")
+					t.ext["strings.SplitN"] = func(ip *absint.Interp, a []absint.Value) absint.Value {
+						s, ok1 := a[0].(absint.Str)
+						sep, ok2 := a[1].(absint.Str)
+						n, ok3 := a[2].(absint.Int)
+						if !ok1 || !ok2 || !ok3 {
+							panic(&absint.Undecided{Msg: "SplitN on non-literal arguments"})
 						}
-						return false, true
-					case absint.Str, absint.Bool, absint.Int:
-						return false, true
+						l := &absint.List{}
+						for _, part := range strings.SplitN(string(s), string(sep), int(n)) {
+							l.Elems = append(l.Elems, absint.Str(part))
+						}
+						return l
 					}
-					return false, false
-				}
-				t.ext["github.com/go-kid/strconv2.ParseAny"] = func(ip *absint.Interp, a []absint.Value) absint.Value {
-					if parseErr = ip.Choose(2, "parse default") == 1; parseErr {
-						return absint.Tuple{absint.Nil{}, t.newErr("parse")}
+					t.ext["strings.Cut"] = func(ip *absint.Interp, a []absint.Value) absint.Value {
+						s, _ := a[0].(absint.Str)
+						sep, _ := a[1].(absint.Str)
+						b, af, f := strings.Cut(string(s), string(sep))
+						return absint.Tuple{absint.Str(b), absint.Str(af), absint.Bool(f)}
 					}
-					return absint.Tuple{absint.NewTok("parsed("+absint.Show(a[0])+")", "cfg"), absint.Nil{}}
-				}
-				t.ext["github.com/go-kid/strconv2.FormatAny"] = func(ip *absint.Interp, a []absint.Value) absint.Value {
-					used = a[0]
-					if fmtErr = ip.Choose(2, "format") == 1; fmtErr {
-						return absint.Tuple{absint.Str(""), t.newErr("format")}
+					t.invoke[ro.BinderGet] = func(ip *absint.Interp, a []absint.Value) absint.Value {
+						asked = append(asked, absint.Show(a[1]))
+						return v.val()
 					}
-					return absint.Tuple{absint.NewTok("formatted("+absint.Show(a[0])+")", "text"), absint.Nil{}}
-				}
-				// a small model of reflect over the table's configuration values
-				t.ext["reflect.ValueOf"] = func(ip *absint.Interp, a []absint.Value) absint.Value {
-					rv := absint.NewTok("rv", "reflected")
-					rv.Attr["of"] = a[0]
-					return rv
-				}
-				of := func(v absint.Value) absint.Value {
-					rv, ok := v.(*absint.Tok)
-					if !ok || rv.Class != "reflected" {
-						panic(&absint.Undecided{Msg: "reflect method on an unmodelled value"})
+					t.typeTest = func(x absint.Value, T types.Type) (bool, bool) {
+						switch x.(type) {
+						case *absint.MapVal:
+							return types.Identical(T, mapAny), true
+						case *absint.List:
+							return types.Identical(T, sliceAny), true
+						case *absint.Tok:
+							if tk := x.(*absint.Tok); tk.Attr["basic"] != nil {
+								b, isB := T.Underlying().(*types.Basic)
+								return isB && !types.IsInterface(T) && b.Name() == string(tk.Attr["basic"].(absint.Str)), true
+							}
+							return false, true
+						case absint.Str, absint.Bool, absint.Int:
+							return false, true
+						}
+						return false, false
 					}
-					return rv.Attr["of"]
-				}
-				t.ext["(reflect.Value).IsValid"] = func(ip *absint.Interp, a []absint.Value) absint.Value {
-					_, isNil := of(a[0]).(absint.Nil)
-					return absint.Bool(!isNil)
-				}
-				t.ext["(reflect.Value).Kind"] = func(ip *absint.Interp, a []absint.Value) absint.Value {
-					switch of(a[0]).(type) {
-					case absint.Nil:
-						return absint.Int(0)
-					case absint.Bool:
-						return absint.Int(1)
-					case absint.Int:
-						return absint.Int(2)
-					case *absint.MapVal:
-						return absint.Int(21)
-					case *absint.List:
-						return absint.Int(23)
-					case absint.Str:
-						return absint.Int(24)
+					t.ext["github.com/go-kid/strconv2.ParseAny"] = func(ip *absint.Interp, a []absint.Value) absint.Value {
+						if parseErr = ip.Choose(2, "parse default") == 1; parseErr {
+							return absint.Tuple{absint.Nil{}, t.newErr("parse")}
+						}
+						return absint.Tuple{absint.NewTok("parsed("+absint.Show(a[0])+")", "cfg"), absint.Nil{}}
 					}
-					return absint.Int(25) // an opaque scalar: modelled as a struct-kind value
-				}
-				t.ext["(reflect.Value).Len"] = func(ip *absint.Interp, a []absint.Value) absint.Value {
-					switch x := of(a[0]).(type) {
-					case *absint.MapVal:
-						return absint.Int(len(x.M))
-					case *absint.List:
-						return absint.Int(len(x.Elems))
-					case absint.Str:
-						return absint.Int(len(x))
+					t.ext["github.com/go-kid/strconv2.FormatAny"] = func(ip *absint.Interp, a []absint.Value) absint.Value {
+						used = a[0]
+						if fmtErr = ip.Choose(2, "format") == 1; fmtErr {
+							return absint.Tuple{absint.Str(""), t.newErr("format")}
+						}
+						return absint.Tuple{absint.NewTok("formatted("+absint.Show(a[0])+")", "text"), absint.Nil{}}
 					}
-					panic(&absint.GoPanic{Msg: "reflect: call of reflect.Value.Len on a value without length"})
-				}
-				t.ext["(reflect.Value).IsNil"] = func(ip *absint.Interp, a []absint.Value) absint.Value {
-					switch x := of(a[0]).(type) {
-					case *absint.MapVal:
-						return absint.Bool(x.IsNil)
-					case *absint.List:
-						return absint.Bool(x.IsNil && len(x.Elems) == 0)
-					case absint.Nil:
-						panic(&absint.GoPanic{Msg: "reflect: call of reflect.Value.IsNil on zero Value"})
+					// a small model of reflect over the table's configuration values
+					t.ext["reflect.ValueOf"] = func(ip *absint.Interp, a []absint.Value) absint.Value {
+						rv := absint.NewTok("rv", "reflected")
+						rv.Attr["of"] = a[0]
+						return rv
 					}
-					panic(&absint.GoPanic{Msg: "reflect: call of reflect.Value.IsNil on a non-nillable value"})
-				}
-				t.ext["(reflect.Value).IsZero"] = func(ip *absint.Interp, a []absint.Value) absint.Value {
-					switch x := of(a[0]).(type) {
-					case absint.Bool:
-						return absint.Bool(!bool(x))
-					case absint.Int:
-						return absint.Bool(x == 0)
-					case absint.Str:
-						return absint.Bool(x == "")
-					case *absint.MapVal:
-						return absint.Bool(x.IsNil)
-					case *absint.List:
-						return absint.Bool(x.IsNil && len(x.Elems) == 0)
-					case absint.Nil:
-						panic(&absint.GoPanic{Msg: "reflect: call of reflect.Value.IsZero on zero Value"})
+					of := func(v absint.Value) absint.Value {
+						rv, ok := v.(*absint.Tok)
+						if !ok || rv.Class != "reflected" {
+							panic(&absint.Undecided{Msg: "reflect method on an unmodelled value"})
+						}
+						return rv.Attr["of"]
 					}
-					return absint.Bool(false)
-				}
-				if setCfg != nil {
-					t.callee[setCfg] = func(ip *absint.Interp, a []absint.Value) absint.Value {
-						recorded = append(recorded, absint.Show(a[1])+"="+absint.Show(a[2]))
+					t.ext["(reflect.Value).IsValid"] = func(ip *absint.Interp, a []absint.Value) absint.Value {
+						_, isNil := of(a[0]).(absint.Nil)
+						return absint.Bool(!isNil)
+					}
+					t.ext["(reflect.Value).Kind"] = func(ip *absint.Interp, a []absint.Value) absint.Value {
+						switch of(a[0]).(type) {
+						case absint.Nil:
+							return absint.Int(0)
+						case absint.Bool:
+							return absint.Int(1)
+						case absint.Int:
+							return absint.Int(2)
+						case *absint.MapVal:
+							return absint.Int(21)
+						case *absint.List:
+							return absint.Int(23)
+						case absint.Str:
+							return absint.Int(24)
+						}
+						return absint.Int(25) // an opaque scalar: modelled as a struct-kind value
+					}
+					t.ext["(reflect.Value).Len"] = func(ip *absint.Interp, a []absint.Value) absint.Value {
+						switch x := of(a[0]).(type) {
+						case *absint.MapVal:
+							return absint.Int(len(x.M))
+						case *absint.List:
+							return absint.Int(len(x.Elems))
+						case absint.Str:
+							return absint.Int(len(x))
+						}
+						panic(&absint.GoPanic{Msg: "reflect: call of reflect.Value.Len on a value without length"})
+					}
+					t.ext["(reflect.Value).IsNil"] = func(ip *absint.Interp, a []absint.Value) absint.Value {
+						switch x := of(a[0]).(type) {
+						case *absint.MapVal:
+							return absint.Bool(x.IsNil)
+						case *absint.List:
+							return absint.Bool(x.IsNil && len(x.Elems) == 0)
+						case absint.Nil:
+							panic(&absint.GoPanic{Msg: "reflect: call of reflect.Value.IsNil on zero Value"})
+						}
+						panic(&absint.GoPanic{Msg: "reflect: call of reflect.Value.IsNil on a non-nillable value"})
+					}
+					t.ext["(reflect.Value).IsZero"] = func(ip *absint.Interp, a []absint.Value) absint.Value {
+						switch x := of(a[0]).(type) {
+						case absint.Bool:
+							return absint.Bool(!bool(x))
+						case absint.Int:
+							return absint.Bool(x == 0)
+						case absint.Str:
+							return absint.Bool(x == "")
+						case *absint.MapVal:
+							return absint.Bool(x.IsNil)
+						case *absint.List:
+							return absint.Bool(x.IsNil && len(x.Elems) == 0)
+						case absint.Nil:
+							panic(&absint.GoPanic{Msg: "reflect: call of reflect.Value.IsZero on zero Value"})
+						}
+						return absint.Bool(false)
+					}
+					if setCfg != nil {
+						t.callee[setCfg] = func(ip *absint.Interp, a []absint.Value) absint.Value {
+							recorded = append(recorded, absint.Show(a[1])+"="+absint.Show(a[2]))
+							return nil
+						}
+					}
+					_, recv, bind := callbackFrame(lit, func(ty types.Type) absint.Value {
+						et := ty
+						if pt, ok := et.Underlying().(*types.Pointer); ok {
+							et = pt.Elem()
+						}
+						switch {
+						case core.NamedOf(et) == prop:
+							return pr
+						case types.IsInterface(et):
+							return &absint.Opaque{Why: "logger"}
+						case core.NamedOf(et) == p.T:
+							return proc
+						}
 						return nil
+					})
+					if history {
+						first := append(append([]absint.Value(nil), recv...), absint.Str(e.key))
+						t.setup = func(ip0 *absint.Interp) {
+							if o := ip0.Run(resolveWrapper(lit), first, bind); o.Undecided != nil {
+								panic(&absint.Undecided{Msg: "an earlier placeholder with the same key: " + o.Undecided.Msg})
+							}
+							asked, recorded, parseErr, fmtErr, used = nil, nil, false, false, nil
+						}
 					}
+					return t, append(recv, absint.Str(e.text)), bind
 				}
-				_, recv, bind := callbackFrame(lit, func(ty types.Type) absint.Value {
-					et := ty
-					if pt, ok := et.Underlying().(*types.Pointer); ok {
-						et = pt.Elem()
+				check := func(ip *absint.Interp, out absint.Outcome) {
+					w := fmt.Sprintf("placeholder=%q value=%s asked=%v recorded=%v formatted=%s => %s", e.text, v.name, asked, recorded, absint.Show(used), showOutcome(out))
+					if out.Panic != nil {
+						rs.fail("errors", "PANIC "+w)
+						return
 					}
+					rs.hit("key-split")
+					if len(asked) != 1 || asked[0] != fmt.Sprintf("%q", e.key) {
+						rs.fail("key-split", w)
+					}
+					isErr := len(out.Ret) == 2 && isErrTok(out.Ret[1])
+					if parseErr || fmtErr {
+						rs.hit("errors")
+						if !isErr {
+							rs.fail("errors", w)
+						}
+						return
+					}
+					if isErr {
+						rs.fail("errors", "unexpected error: "+w)
+						return
+					}
+					ret := absint.Show(out.Ret[0])
 					switch {
-					case core.NamedOf(et) == prop:
-						return pr
-					case types.IsInterface(et):
-						return &absint.Opaque{Why: "logger"}
-					case core.NamedOf(et) == p.T:
-						return proc
+					case !v.absent:
+						rs.hit("present")
+						if !strings.HasPrefix(ret, "formatted(") || strings.Contains(ret, "parsed(") {
+							rs.fail("present", w)
+						}
+					case e.def != "":
+						rs.hit("absent-default")
+						if ret != fmt.Sprintf("formatted(parsed(%q))", e.def) {
+							rs.fail("absent-default", w)
+						}
+					default:
+						rs.hit("absent-nothing")
+						// the empty text, or the text of the empty container itself (an empty value either way)
+						if ret != `""` && !(ret == "formatted("+absint.Show(v.val())+")" && v.name != "nil") {
+							rs.fail("absent-nothing", w)
+						}
 					}
-					return nil
-				})
-				return t, append(recv, absint.Str(e.text)), bind
-			}
-			check := func(ip *absint.Interp, out absint.Outcome) {
-				w := fmt.Sprintf("placeholder=%q value=%s asked=%v recorded=%v formatted=%s => %s", e.text, v.name, asked, recorded, absint.Show(used), showOutcome(out))
-				if out.Panic != nil {
-					rs.fail("errors", "PANIC "+w)
-					return
-				}
-				rs.hit("key-split")
-				if len(asked) != 1 || asked[0] != fmt.Sprintf("%q", e.key) {
-					rs.fail("key-split", w)
-				}
-				isErr := len(out.Ret) == 2 && isErrTok(out.Ret[1])
-				if parseErr || fmtErr {
-					rs.hit("errors")
-					if !isErr {
-						rs.fail("errors", w)
+					rs.hit("recorded")
+					okRec := len(recorded) == 1 && strings.HasPrefix(recorded[0], fmt.Sprintf("%q=", e.key))
+					if okRec && v.absent && e.def != "" {
+						okRec = strings.Contains(recorded[0], "parsed(")
 					}
-					return
-				}
-				if isErr {
-					rs.fail("errors", "unexpected error: "+w)
-					return
-				}
-				ret := absint.Show(out.Ret[0])
-				switch {
-				case !v.absent:
-					rs.hit("present")
-					if !strings.HasPrefix(ret, "formatted(") || strings.Contains(ret, "parsed(") {
-						rs.fail("present", w)
-					}
-				case e.def != "":
-					rs.hit("absent-default")
-					if ret != fmt.Sprintf("formatted(parsed(%q))", e.def) {
-						rs.fail("absent-default", w)
-					}
-				default:
-					rs.hit("absent-nothing")
-					// the empty text, or the text of the empty container itself (an empty value either way)
-					if ret != `""` && !(ret == "formatted("+absint.Show(v.val())+")" && v.name != "nil") {
-						rs.fail("absent-nothing", w)
+					if !okRec {
+						rs.fail("recorded", w)
 					}
 				}
-				rs.hit("recorded")
-				okRec := len(recorded) == 1 && strings.HasPrefix(recorded[0], fmt.Sprintf("%q=", e.key))
-				if okRec && v.absent && e.def != "" {
-					okRec = strings.Contains(recorded[0], "parsed(")
+				n, u := runTable(c, resolveWrapper(lit), build, check)
+				runs += n
+				if u != "" {
+					return rs, runs, u
 				}
-				if !okRec {
-					rs.fail("recorded", w)
-				}
-			}
-			n, u := runTable(c, resolveWrapper(lit), build, check)
-			runs += n
-			if u != "" {
-				return rs, runs, u
 			}
 		}
 	}
